@@ -722,7 +722,7 @@ type C12BatchCase struct {
 func C12GenBatchCase(t *rapid.T) C12BatchCase {
 	var c C12BatchCase
 	c.Cap = rapid.SampledFrom([]int{-1, -1, 0, 1, 10, 300}).Draw(t, "cap")
-	profile := rapid.IntRange(0, 9).Draw(t, "profile") // 0..3 all valid, 4..9 mixed
+	profile := rapid.IntRange(0, 9).Draw(t, "profile") // 0..2 all valid, 3..6 with invalid entries, 7..9 with a cancelling pair
 	nGood := rapid.IntRange(1, 3).Draw(t, "ngood")
 	for i := 0; i < nGood; i++ {
 		e, _ := C12GenEntry(t, fmt.Sprintf("g%d", i))
@@ -732,11 +732,11 @@ func C12GenBatchCase(t *rapid.T) C12BatchCase {
 		c.Pool = append(c.Pool, e)
 	}
 	var bad, pairs []int
-	if profile >= 4 {
+	if (profile >= 3 && profile <= 6) || (profile >= 7 && rapid.IntRange(0, 3).Draw(t, "pairbad") == 0) {
 		nBad := rapid.IntRange(1, 3).Draw(t, "nbad")
 		for i := 0; i < nBad; i++ {
 			e, _ := C12GenEntry(t, fmt.Sprintf("b%d", i))
-			if rapid.Bool().Draw(t, "cheapmsg") { // share the first good entry's input: cheaper, and a more interesting batch
+			if rapid.Bool().Draw(t, "cheapmsg") { // share the first good entry's input: a more interesting batch
 				e.Key, e.M = c.Pool[0].Key, c.Pool[0].M
 			}
 			m := C12GenMut(t, fmt.Sprintf("b%dm", i), true)
@@ -744,18 +744,18 @@ func C12GenBatchCase(t *rapid.T) C12BatchCase {
 			bad = append(bad, len(c.Pool))
 			c.Pool = append(c.Pool, e)
 		}
-		if rapid.IntRange(0, 2).Draw(t, "pair") == 0 {
-			d := rapid.SampledFrom([]int{1, -1, 2, 1000}).Draw(t, "delta")
-			e1, _ := C12GenEntry(t, "p1")
-			e2, _ := C12GenEntry(t, "p2")
-			if rapid.Bool().Draw(t, "pairsame") {
-				e2.Key, e2.M = e1.Key, e1.M
-			}
-			e1.Mut = &C12Mut{Kind: "sig-cancel", N: d}
-			e2.Mut = &C12Mut{Kind: "sig-cancel", N: -d}
-			pairs = append(pairs, len(c.Pool))
-			c.Pool = append(c.Pool, e1, e2)
+	}
+	if profile >= 7 {
+		d := rapid.SampledFrom([]int{1, -1, 2, 1000}).Draw(t, "delta")
+		e1, _ := C12GenEntry(t, "p1")
+		e2, _ := C12GenEntry(t, "p2")
+		if rapid.Bool().Draw(t, "pairsame") {
+			e2.Key, e2.M = e1.Key, e1.M
 		}
+		e1.Mut = &C12Mut{Kind: "sig-cancel", N: d}
+		e2.Mut = &C12Mut{Kind: "sig-cancel", N: -d}
+		pairs = append(pairs, len(c.Pool))
+		c.Pool = append(c.Pool, e1, e2)
 	}
 	sizes := []int{1, 1, 1, 1, 2, 2, 3, 4, 7, 8, 15, 16, 17, 31, 32, 33, 63, 64, 65, 93, 94, 95, 96, 97, 127, 128, 129, 150, 199, 200}
 	nOps := rapid.IntRange(1, 10).Draw(t, "nops")
